@@ -122,7 +122,8 @@ def strategy(tier):
                 "fname": draw(st.sampled_from(["out.vti", "out", "result_3.vti", "density"]))}
 
     val = st.fixed_dictionaries({
-        "kind": st.sampled_from(["pyfloat", "pyint", "npfloat", "npfloat32", "npint", "arr0", "vec", "vec", "vec", "mat"]),
+        "kind": st.sampled_from(["pyfloat", "pyint", "npfloat", "npfloat32", "npint", "arr0", "vec", "vec", "vec", "mat",
+                                 "pycomplex", "cvec"]),    # complex scalars / vectors (e.g. eigenvalues of a damped system)
         "shape": st.lists(st.integers(1, 3), min_size=2, max_size=2), "len": st.integers(1, 6),
         "dtype": st.sampled_from(["f8", "f8", "i8"]), "seed": seed,
         "layout": st.sampled_from(["C", "C", "F", "rev"])})
@@ -354,6 +355,10 @@ def _log_value(v, call):
         return float(num())
     if k == "pyint":
         return int(rng.integers(-10 ** 6, 10 ** 6))
+    if k == "pycomplex":
+        return complex(float(num()), float(num()))
+    if k == "cvec":
+        return np.asarray(num((v["len"],)), dtype=float) + 1j * np.asarray(num((v["len"],)), dtype=float)
     if k == "npfloat":
         return np.float64(num())
     if k == "npfloat32":
@@ -389,7 +394,7 @@ def _check_log(case, pym, tmp, labels, bad):
         x = _log_value(v, 0)
         ncols += int(np.size(x))
         labels.append("kind_" + v["kind"])
-        if v["kind"] in ("vec", "mat"):
+        if v["kind"] in ("vec", "mat", "cvec"):
             labels.append("size1_array" if np.size(x) == 1 else "array_size2+")
     labels += ["csv" if case["csv"] else "sep_" + {"\t": "tab", " ": "space", ";": "semicolon"}[sep_arg],
                "fmt_default" if default else "fmt_" + fmt]
@@ -412,7 +417,7 @@ def _check_log(case, pym, tmp, labels, bad):
             mod.response()
             written.append(row)
     except Exception as e:
-        size1 = any(v["kind"] in ("vec", "mat") and np.size(_log_value(v, 0)) == 1 for v in values)
+        size1 = any(v["kind"] in ("vec", "mat", "cvec") and np.size(_log_value(v, 0)) == 1 for v in values)
         bad(f"raises:log:{type(e).__name__}" + (":size1_array" if size1 else ""),
             f"{e!r}"[:400] + f" | values={[(v['kind'], np.shape(_log_value(v, 0))) for v in values]} fmt={fmt!r}")
         return
@@ -467,9 +472,10 @@ def _check_log(case, pym, tmp, labels, bad):
                     flat.append(arr.reshape(-1)[q].item())
             hcol += nv
         for j, (c, x) in enumerate(zip(cols[1:], flat)):
-            want = float(format(x, fmt))
+            conv = complex if isinstance(x, complex) else float      # complex values are logged as 'a+bj'
+            want = conv(format(x, fmt))
             try:
-                gotv = float(c)
+                gotv = conv(c)
             except ValueError:
                 gotv = None
             if gotv is None or gotv != want:
